@@ -1,5 +1,5 @@
 """Source of MANIFEST.json (bin/mkmanifest)."""
-HOOK_COMMITS = ['3325b20b558a4a8c127cbb77bf01e82940ae3896']
+HOOK_COMMITS = ['40f6828af68cf8e37d02b4b886997a2471b94304', '3325b20b558a4a8c127cbb77bf01e82940ae3896']
 NOTES = ('Every check: translators regenerate coq/gen from /repo, Properties_<id>.v is rebuilt with coqc (full .vo) and its '
          'Print Assumptions output audited, the implementation is rebuilt from /repo\'s working tree in a scratch directory, '
          'the extracted model and the extracted specification oracle are run against it. See DESIGN.md.')
@@ -25,6 +25,100 @@ CLAIMS = {
   'note': 'trusted: Coq kernel, extraction, translator regex for the limit, generators; strchr/arena/buffer/stdio modelled not verified; the lookup callback is '
           'a pure function in this model; correspondence bounded by generated templates (<= ~10 tokens) and environments (<= 7 variables)',
   'technique': 'Coq proof (model <-> inductive substitution relation, cycle and depth theorems) + regenerated constant + extracted-model differential correspondence',
+ },
+
+ 'C01': {
+  'text': 'Coq theorems (closed under the global context) over an executable model of step.c / robsd-step.c (lexer, header and row parser, defaults, '
+          'strtonum, the write-time value check, sort, serialisation through the interpolation model, -W and -R): a well-formed file parses back to exactly its rows; '
+          'one write is accepted iff the abstract dictionary specification accepts it and then the file is the serialisation of the updated dictionary (ascending ids, '
+          'other rows unchanged), otherwise exit 1 with identical bytes; by induction every history of writes from the empty file leaves a file representing the '
+          'dictionary of the accepted writes; reading a field at a position returns the dictionary value; for EVERY file content a rejected write changes nothing and exit 0 '
+          'implies no flush failure and a newly serialised file; decimal print/parse round-trips for every integer. Field table, bounds, value check and the fclose check are '
+          'regenerated from the source on every run.',
+  'note': 'Scope: key=value arguments addressing the id column (step=...) are outside the quantifier (hypothesis no_id_key). Trusted/assumed: Coq kernel, extraction, translator regexes, '
+          'strtoll syntax re-written in Gallina, stdio buffering and fopen("w") truncation, the file system (flush fault injected with ulimit -f 0), qsort as a stable sort on distinct ids. '
+          'Four genuine defects found by this check were repaired (fix: commits bda6bfa, 33c7519). Correspondence bounded by generated histories (<= 12 writes).',
+  'technique': 'Coq proof (parse o serialise = id, refinement of an abstract dictionary by induction over histories) + regenerated field table/bounds + extracted-model differential '
+               'correspondence with robsd-step on histories incl. an injected flush fault + extracted dictionary oracle on observed histories',
+ },
+ 'C07': {
+  'text': 'PARTIAL. Coq theorems (closed under the global context) about a statement-by-statement model of step_exec/step_fork/killwaitpg/'
+          'killwaitpg1/sighandler/exitstatus composed with an explicit kernel model, for ALL process trees, timeouts and schedules (runner '
+          'steps, SIGTERM/SIGALRM arrivals, members exiting on their own): once a signal arrives while the runner is blocked in waitpid it ends '
+          'by exit with the main process reaped, SIGTERM sent to the whole group, SIGKILL only against a TERM-ignoring main (then nobody is left), '
+          'no default-disposition member alive, status 124 for the alarm and non-zero otherwise (unless the main process exited 0 by itself first); '
+          'the kill phase always terminates (measure); without a signal nothing is killed and the main process\'s code is returned. The statement '
+          'for every arrival point after the fork is REFUTED by two windows (theorems with witnesses, reproduced on the real binary, known findings '
+          'sigterm-before-handler and signal-before-waitpid); the exact guard under which it holds is proved.',
+  'note': 'ASSUMED not verified: the kernel model (kill(-pgid) reaches exactly the live group members, SIGKILL kills, SIGTERM kills default-disposition '
+          'members, waitpid reaps only the main process, a handled signal interrupts a blocking waitpid and otherwise only sets gotsig, default SIGTERM '
+          'ends the runner, the alarm cannot fire before alarm()); not modelled: delivery latency, PID reuse, members leaving the group or forking during '
+          'the kill, uninterruptible members, the waiteof failure path. Observed only: agreement of model and robsd-exec on driven schedules (6/40 trees '
+          '<= 10 processes, every sync point x TERM/ALRM/real alarm(1), second signals, self-exits) and 24/400 undriven timings; real races are sampled, '
+          'not exhausted. Trusted: Coq kernel, extraction, driver glue, t_kill.py regexes, the ROBSD_VERIF sync-point hook, tools/kl_sched.py (/proc scan) '
+          'and tools/proctree.c; exitstatus modelled with glibc W* macros for non-negative statuses.',
+  'technique': 'Coq proof (invariants over a small-step runner+kernel transition system, refutation witnesses by vm_compute, guarded partial theorem, oracle '
+               'reflection) + regenerated call-order/constant tie + extracted-model correspondence with the real robsd-exec driven through sync points + '
+               'extracted spec oracle on /proc observations',
+ },
+ 'C15': {
+  'text': 'Coq theorems (closed under the global context) about the model of invocation_read/match_directory/invocation_alloc/invocation_walk + robsd-ls main, '
+          'for every directory content (any entries of any d_type with distinct names), root and keep-dir string, lock file content and every function that '
+          'behaves like qsort: listed <-> DT_DIR, not hidden, path != keep-dir; each once; strictly descending by byte-wise name order; -B drops exactly the entry '
+          'whose printed path equals the first line of .running; the specification has one solution and the oracle accepts exactly it. '
+          'Tied to the binary by byte-exact runs of robsd-ls -m <mode> -C <conf> [-B] in all five modes.',
+  'note': 'known finding B-lists-lock-target-spelled-differently: -B compares strings, a lock spelled differently (robsd -r + non-canonical robsddir) is not omitted '
+          '(C15_B_omits_denoted_directory_refuted; C15_B_omits_exactly_lock_target is the byte-for-byte statement). Assumed, not verified: readdir/d_type from the kernel, '
+          'qsort contract, strcmp/snprintf/printf, no PATH_MAX truncation, names without newline for the line oracle; configuration loader exercised not modelled; '
+          'DT_UNKNOWN via LD_PRELOAD stand-in; opendir failure modelled but not producible as root; correspondence bounded by generated roots (<= 22 entries)',
+  'technique': 'Coq proof (uniqueness of sorted permutations under a strict order, Base/Sort.v) + extracted-model differential correspondence + extracted spec oracle told the lock target by file identity',
+ },
+ 'C16': {
+  'text': 'PARTIAL. Coq theorems about the model of robsd-clean + util.sh purge on an abstract tree, for every well-formed tree, lock content, keep/count/keep-attic and qsort, '
+          'under the guard lock_consistent (lock absent/unusable and nothing running, or its first line is exactly the path robsd-ls prints for the running invocation): '
+          'retention 0 is a no-op; afterwards the root holds exactly the running invocation plus the newest others, min(N, all) in total; nothing of a removed invocation is left; '
+          'every entry outside the removed invocations and the attic is unchanged and nothing new appears outside the attic; with the attic enabled old attic paths stay, every victim '
+          'reappears at attic/YYYY/MM/DD.X, and every new attic entry is a created parent or the copy of a non-tmp entry that is whitelisted or a directory holding a whitelisted name; '
+          'whitelist, +1 compensation and tr characters are regenerated from util.sh and proved equal to the documented ones. Tied to bash robsd-clean -m canvas by whole-tree comparison.',
+  'note': 'C16_kept_set_refuted without the guard: known findings clean-lock-spelled-differently (running invocation archived) and clean-stale-lock-keeps-one-less; candidate patch '
+          'findings/D15_clean_lock.diff not applied. Partial also because bash and GNU tail/find/cp/rm/tr run behind stand-ins (stat -f %Sm -t, find -delete ignoring ENOTEMPTY, chflags, logname, date); '
+          'only canvas mode end to end; modes/owners/timestamps not modelled; names without newline, leading/trailing blanks; the attic clauses of the oracle are checked against the model by execution, not proved',
+  'technique': 'Coq proof (fold over victims with outside/gone/attic-provenance lemmas on a flat path-list tree, listing model of C15 reused) + translator util.sh -> Gen_Util.v + differential correspondence + extracted tree oracle with an independent whitelist',
+ },
+ 'C17': {
+  'text': 'Coq theorems about the models of build_id (as util.sh has it now: count+1 advanced to the next free suffix), build_init and log_id on what find(1) sees: '
+          'the directory name handed out is not the name of any entry of the root, for every tree and for every history of runs and arbitrary removals (C17_build_id_fresh; '
+          'it stops compiling when the loop is removed again); build_init takes over an existing directory silently; for every sequence of attempts in a build directory '
+          'satisfying log_inv (in particular a fresh one) every log name is fresh, names are pairwise distinct and earlier entries stay (C17_log_id_fresh). '
+          'Tied to the real functions of util.sh under bash on generated directory states and to run/clean histories through the real canvas and robsd-clean.',
+  'note': 'D10 (count+1 collided after an older same-day invocation was cleaned while a newer one remained) fixed in 70fb0eb, kept as C17_regression_count_plus_one_collides + corpus replays; '
+          'the translator recognises either build_id body and raises on anything else. Assumed: bash for ksh, GNU find/wc/tr/printf/echo, date via stand-in, glob PREFIX* modelled as a prefix test '
+          '(step names over letters, digits, . _ - /); the oracle is applied to reachable states, other contents (files/links named like invocations, nested matches, newlines, deleted logs) are comparison-only',
+  'technique': 'Coq proof (fuel-bounded next-free search with a pigeonhole argument, decimal injectivity from DecimalNat, invariant over attempt sequences) + translator util.sh -> Gen_Util.v (build_id variant, log constants) + differential correspondence + extracted freshness oracles',
+ },
+ 'C19': {
+  'text': 'Coq theorems (25, closed under the global context) over an executable model of libks/arena.c (frames, bump pointer, '
+          'alignment, ASan poison gap as a parameter, frame doubling, malloc/calloc/realloc fast+slow path/strndup/strdup/sprintf/'
+          'cleanup nodes stored in arena memory/scope enter+leave/validate/arena_free) for EVERY API-respecting operation sequence '
+          '(LIFO leaves, any sizes < 2^64, any depth, one or two arenas): returned pointers maxalign = pointer aligned; live blocks '
+          'inside their frame behind the header and pairwise disjoint; no operation changes a byte of a live block except the '
+          'client\'s own write (per step and over whole traces); realloc keeps the common prefix; leaving a scope keeps exactly the '
+          'outer scopes\' blocks, never takes the len=0 branch, runs exactly that scope\'s cleanups newest first (permutation '
+          'accounting over traces); malloc/calloc/str*/cleanup/growing realloc through a non-innermost scope trap; everything else '
+          'within the API never traps or crashes (errx only above 2^63 bytes); uint64 arithmetic of align_address does not wrap; the '
+          'extracted oracle never objects to the model\'s own trace. Constants (frame multiplier, maxalign, sizeof frame/cleanup, '
+          'POISON_SIZE normal/ASan, pointer size) are regenerated from arena.c on every run.',
+  'note': 'proved about the model; tied to the code by exact differential runs (offsets, shapes, cleanups, sampled contents, trap/exit) '
+          'of an in-process harness that #includes arena.c and traces arena-buffer.c/arena-vector.c, normal and clang ASan builds, '
+          'plus the extracted oracle and shadow copies applied to the implementation (bounded by generated sequences: <= 120 ops, '
+          'sizes <= 1 MiB and >= 2^63). Assumed: malloc returns aligned non-aliasing chunks and does not fail, addresses do not wrap, '
+          'cleanup functions do not use the arena, compiler sizeof; stats/diagnostics not modelled. Stated exactly, not repaired: '
+          'shrinking realloc ignores the scope (inner block shrunk through an outer scope is undetected: C19_outer_shrink_undetected, '
+          'findings/C19_outer_shrink.c); non-LIFO leave hands out the frame header; after arena_free only leaves are within the API. '
+          'The growing-realloc defect (D11) was repaired (fix: 08bdded).',
+  'technique': 'Coq invariant proof over all operation sequences (ghost live-block table, stacking order, scope marks, cleanup chains in a '
+               'byte/fragment memory model) + translator for constants + extracted-model and extracted-oracle differential '
+               'correspondence with an in-process C harness (normal + ASan)',
  },
 }
 NOT_APPLICABLE = {p: PENDING for p in ['C%02d' % i for i in range(1, 21)] if p not in CLAIMS}
